@@ -90,6 +90,12 @@ def const_str(node: Optional[ast.AST]) -> Optional[str]:
 
 
 def guard_tests(node: ast.AST, stop: ast.AST) -> List[Tuple[ast.expr, bool]]:
+    """Normalised structural guards (see _guard_tests_raw and cfg.normalise_facts)."""
+    from .cfg import normalise_facts
+    return normalise_facts(_guard_tests_raw(node, stop))
+
+
+def _guard_tests_raw(node: ast.AST, stop: ast.AST) -> List[Tuple[ast.expr, bool]]:
     """
     Conditions known to hold when `node` executes, from enclosing if/while/ifexp/comprehension-ifs/BoolOp:
     list of (test expression, polarity).  Purely structural (no early-exit reasoning, see cfg.dominating_tests).
